@@ -522,7 +522,16 @@ def explore_partitions(job: dict) -> dict:
                                b"045  I --- 01:145038 --:------ 01:145038 1F09 003 FF073F * Checksum error")).map(
         lambda b: {"kind": "chatter", "data": b})
     rawbytes = st.binary(max_size=20).map(lambda b: {"kind": "bytes", "data": b.replace(b"\r\n", b"\n\r")})
-    element = st.one_of(valid, valid, valid, mutant, chatter, rawbytes)
+    # frames the transport itself inspects (sync-cycle tracking, signature detection): well-formed at frame level, odd payloads
+    ctl = st.sampled_from(("01:145038", "01:078710", "23:100224"))
+    odd = st.one_of(
+        st.builds(lambda c, pl: f"045  I --- {c} --:------ {c} 1F09 {len(pl) // 2:03d} {pl}", ctl,
+                  st.sampled_from(("FF073F", "FF", "FF07", "FF0000", "FFFFFF", "00073F", "FF073F00", "F8073F"))),
+        st.builds(lambda c, pl: f"045  W --- 18:006402 {c} --:------ 1F09 {len(pl) // 2:03d} {pl}", ctl, st.sampled_from(("F8073F", "F8", "00"))),
+        st.builds(lambda pl: f"000  I --- 18:006402 63:262142 --:------ 7FFF {len(pl) // 2:03d} {pl}",
+                  st.sampled_from(("00", "0010", "001001A0ED212E7B76302E33312E3233", "7F" * 24))),
+    ).map(lambda s: {"kind": "mutant", "data": s.encode("ascii")})
+    element = st.one_of(valid, valid, valid, mutant, chatter, rawbytes, odd, odd)
 
     @st.composite
     def case(draw: Any) -> tuple[list[dict], list[dict]]:
